@@ -800,6 +800,9 @@ def _pt_map_loop(self, st: ast.For, leaf: Leaf, depth: int) -> Optional[List[Lea
     T = self._T(leaf.env, depth)
     it = st.iter
     idx_name = elt_names = None
+    rv = _pt_row_view_loop(self, st, leaf, T)
+    if rv is not None:
+        return rv
     try:
         if isinstance(it, ast.Call) and call_name(it) == "enumerate" and len(it.args) == 1 and isinstance(st.target, ast.Tuple) and len(st.target.elts) == 2 \
                 and isinstance(st.target.elts[0], ast.Name):
@@ -891,6 +894,64 @@ def _pt_map_loop(self, st: ast.For, leaf: Leaf, depth: int) -> Optional[List[Lea
         out.env[name] = SEQ(v, seq)
     for fld in fields:
         out.env[fld] = sp.Symbol(f"<{fld} after the loop>")
+    return [out]
+
+
+def _pt_row_view_loop(self, st: ast.For, leaf: Leaf, T) -> Optional[List[Leaf]]:
+    """`for row, a, b in zip(A, X, Y): row[:] = g(a, b)` with A a freshly allocated array of len(X) rows bound to a local: the rows
+    of A are filled through their views - afterwards A is SEQ(g(<e>), zip(X, Y)).  (`zip` may have been bound to a local first.)"""
+    fn = lambda e: getattr(getattr(e, "func", None), "__name__", "")     # noqa: E731
+    if not (isinstance(st.target, ast.Tuple) and all(isinstance(e, ast.Name) for e in st.target.elts) and len(st.body) == 1):
+        return None
+    body = st.body[0]
+    if not (isinstance(body, ast.Assign) and len(body.targets) == 1 and isinstance(body.targets[0], ast.Subscript) and isinstance(body.targets[0].value, ast.Name)):
+        return None
+    sl = body.targets[0].slice
+    whole = (isinstance(sl, ast.Slice) and sl.lower is None and sl.upper is None and sl.step is None) or (isinstance(sl, ast.Constant) and sl.value is Ellipsis)
+    if not whole:
+        return None
+    try:
+        itv = T.tr(st.iter)
+    except AnalysisError:
+        return None
+    if fn(itv) != "zip" or len(itv.args) != len(st.target.elts) or len(itv.args) < 2:
+        return None
+    names = [e.id for e in st.target.elts]
+    row = body.targets[0].value.id
+    if row not in names:
+        return None
+    k = names.index(row)
+    A_val = itv.args[k]
+    if fn(A_val) not in ("empty", "zeros") or not A_val.args or not isinstance(A_val.args[0], sp.Tuple) or len(A_val.args[0]) != 2:
+        return None
+    holders = [nm for nm, v in leaf.env.items() if v == A_val and nm.isidentifier()]
+    if len(holders) != 1:
+        return None
+    others = [a for j, a in enumerate(itv.args) if j != k]
+    if A_val.args[0][0] not in [sp.Function("len")(o) for o in others]:
+        return None             # the buffer must have one row per element of the other sequences
+    # the row may only be used as the store target
+    if sum(1 for x in ast.walk(st) if isinstance(x, ast.Name) and x.id == row) != 2:
+        return None
+    seq = sp.Function("zip")(*others) if len(others) > 1 else others[0]
+    env = dict(leaf.env)
+    item = sp.Function("item")
+    jj = 0
+    for j, nm in enumerate(names):
+        if j == k:
+            continue
+        env[nm] = item(ELT, sp.Integer(jj)) if len(others) > 1 else ELT
+        jj += 1
+    try:
+        v = self._T(env, 0).tr(body.value)
+    except AnalysisError:
+        return None
+    out = leaf
+    out.events.append(("loop", unparse(st.target), sp.Symbol("<loop>"), st))
+    out.snaps[id(st)] = (dict(leaf.env), len(leaf.conds))
+    for nm in names:
+        out.env[nm] = sp.Symbol(nm, real=True)
+    out.env[holders[0]] = SEQ(v, seq)
     return [out]
 
 
@@ -1020,7 +1081,8 @@ def holds(lit, assign) -> Optional[bool]:
         in_ = sp.Function("in_")
         if b == sp.true and getattr(a, "func", None) == sp.Function("in_"):
             item, cont = a.args
-            if isinstance(cont, sp.Tuple) and item.is_Symbol and item.name.startswith("'") and all(c.is_Symbol and c.name.startswith("'") for c in cont):
+            litsym = lambda x: getattr(x, "is_Symbol", False) and (x.name.startswith("'") or x.name == "None")      # noqa: E731
+            if isinstance(cont, sp.Tuple) and litsym(item) and all(litsym(c) or getattr(c, "is_Number", False) for c in cont):
                 r = item in list(cont)
                 return r if isinstance(lit, sp.Eq) else not r
             cn = getattr(getattr(cont, "func", None), "__name__", "")
